@@ -203,3 +203,7 @@ def run(ctx):
     # bytes that were never appended to this one (same rule instance as C19/stale-field)
     from rules import c19
     c19.rule_stale_field(ctx, rule="C10/no-stale-references", only=("memory_blocks", "crashing_thread_context"))
+    # the LinuxDsoDebug entry names exactly the record plus the bytes appended behind it (same rule instance as C18/dso-extent)
+    from rules import c18 as _c18
+    _c18.rule_dso_extent(ctx, R="C10/dso-extent")
+
